@@ -418,6 +418,22 @@ def checkS (loops : List LoopSpec) (fs : List Expr) : FStmt → Option (List Exp
       | some rb => if fitsType ty rb then some fs else none
       | none => none
 
+/-! ## the shape of conditions (what the type checker guarantees; used by the proofs and,
+as a computable check on every sampled program, by the driver) -/
+
+def boolTyped (e : Expr) : Bool := (typeOf e).base == .bool
+
+/-- the shape of a condition (of an `if`, `while`, `assert`, `pre` / `inv` / `post`):
+comparisons combined with `and` / `or` / `not`, boolean variables and elements -/
+def goodCond : Expr → Bool
+  | .binary op l r =>
+    op.isCmp || ((op == .and || op == .or) && goodCond l && goodCond r && boolTyped l && boolTyped r)
+  | .assoc op _ l r => (op == .and || op == .or) && goodCond l && goodCond r && boolTyped l && boolTyped r
+  | .unary .not e => goodCond e && boolTyped e
+  | .unary _ _ => false
+  | .as _ _ => false
+  | _ => true
+
 /-! ## the situation at every program point (what the `assert false` probe reads) -/
 
 mutual
